@@ -6,5 +6,6 @@ CONSTANTS
   Patterns <- PatsQuick
   LowRankDims = {2, 3, 6}
   Ranks = {0, 1, 2}
+  Splits = {0, 2}
 SPECIFICATION Spec
 CHECK_DEADLOCK FALSE
